@@ -88,7 +88,8 @@ def adapt_cases(tier, adapt_src, maxcells):
         fam, dim, gmode = c["fam"], c["dim"], c["mode"]
         oparts = [p for p in c["parts"] if "tidx" in p]
         parts = [{"name": "bnd", "boundary": True}] + pick(c, "fc1", "halo0", {"as": "halo", "rank": 3}) \
-            + pick(c, "cc1", "patch0", {"as": "patch", "rank": 0}) + pick(c, "fb1", "fbare", {}) + pick(c, "vb1", "vone", {})
+            + pick(c, "cc1", "patch0", {"as": "patch", "rank": 0}) + pick(c, "fb1", "fbare", {}) + pick(c, "vb1", "vone", {}) \
+            + pick(c, "ec1", "halo_edge", {"as": "halo", "rank": 5}) + pick(c, "vb2", "halo_vertex", {"as": "halo", "rank": 6})   # halos without any facet (3D: an edge, a vertex)
         if oparts:
             parts.append(oparts[i % len(oparts)])
             parts.append(oparts[(7 * i + 3) % len(oparts)] if len(oparts) > 1 else None)
